@@ -9,6 +9,6 @@ Extraction "model.ml"
   zd_init zd_query zd_clear_layer zd_cmp zd_partial_cmp zd_spec_dominated
   zf_empty zf_push zf_pop zf_len zf0_empty zf0_push zf0_pop z_maxub zq_push_nodup zq_coalesce
   tb_input tb_compile tb_candidates tb_dot tb_cache_init tb_dom_init tb_cache_update
-  tb_sconfig tb_maximize tb_par_maximize tb_opt_enum tb_opt_from tb_hstar tb_replay tb_enum_from
+  tb_sconfig tb_maximize tb_maximize_multi tb_par_maximize tb_opt_enum tb_opt_from tb_hstar tb_replay tb_enum_from
   Mdd.dd_is_exact Mdd.dd_best_value Mdd.dd_best_exact_value Mdd.dd_best_solution Mdd.dd_best_exact_solution
   Mdd.drain_cutset Mdd.m_log Mdd.m_cache Mdd.m_dom Mdd.m_polls Mdd.m_crash.
